@@ -1641,7 +1641,7 @@ func generateText(repo string) (string, error) {
 	rs, err := t.rules()
 	if err != nil {
 		// the frame of ValidateNodeGroup is not the one the translator reads: no rule list at all
-		g.marker(err, "gen_rules", "gen_rule_src", "gen_rule_msg", "gen_validate")
+		g.marker(err, "gen_rules", "gen_rule_src", "gen_rule_msg", "gen_validate", "gen_rules_untranslated")
 	} else {
 		b.WriteString("Definition gen_rules : list (cfg -> bool) := [\n")
 		for i, r := range rs {
@@ -1660,7 +1660,10 @@ func generateText(repo string) (string, error) {
 		fmt.Fprintf(b, "(* the Go source of each condition and its message, in the same order (for reports) *)\nDefinition gen_rule_src : list string := %s.\n", coqStrListSafe(srcs, ";\n  "))
 		fmt.Fprintf(b, "Definition gen_rule_msg : list string := %s.\n", coqStrListSafe(msgs, ";\n  "))
 		b.WriteString("Definition gen_validate (c : cfg) : bool := forallb (fun r => r c) gen_rules.\n")
-		// statements of ValidateNodeGroup outside the grammar (each untranslatable rule was emitted as `true`)
+		// statements of ValidateNodeGroup outside the grammar (each untranslatable rule was emitted as `true`): listed on their own,
+		// so that the completeness of the rule list can be stated without mentioning any other item, and in gen_untranslated
+		b.WriteString("(* statements of ValidateNodeGroup outside the translator's grammar (each untranslatable rule is emitted as `true`) *)\n")
+		fmt.Fprintf(b, "Definition gen_rules_untranslated : list string := %s.\n", coqStrListSafe(t.untranslated, ";\n  "))
 		for _, m := range t.untranslated {
 			g.missing = append(g.missing, "gen_rules: "+m)
 		}
